@@ -1063,7 +1063,7 @@ func (x *Exec) rangeStmt(n *ast.RangeStmt, st *State, label string) flow {
 		x.ghostSorts[seenName] = fmt.Sprintf("(Array %s Bool)", ks)
 		x.ghostSorts["seen"] = x.ghostSorts[seenName]
 		dom := x.ctx.mpDom(rv)
-		val := x.ctx.mpVal(rv)
+		_ = x.ctx.mpVal(rv)
 		var curKey string
 		ls.autoInv = func(h *State) []string {
 			h.ghost["seen"] = h.ghost[seenName]
@@ -1079,7 +1079,10 @@ func (x *Exec) rangeStmt(n *ast.RangeStmt, st *State, label string) flow {
 			f := h.clone()
 			f.assume(fmt.Sprintf("(forall ((k %s)) (! (=> (select %s k) (select %s k)) :pattern ((select %s k))))", ks, dom, s, dom))
 			k := Val{curKey, u.Key()}
-			v := Val{fmt.Sprintf("(select %s %s)", val, curKey), u.Elem()}
+			// the value is read from the map as it is NOW (updates of existing keys during the iteration are seen)
+			x.st = t
+			cur := x.expr(x.env(), n.X)
+			v := Val{fmt.Sprintf("(select %s %s)", x.ctx.mpVal(cur), curKey), u.Elem()}
 			defKV(t, &k, &v)
 			x.st = t
 			x.readFacts(k)
@@ -1223,6 +1226,14 @@ func (x *Exec) collectMods(unit *FuncUnit, n ast.Node, ms *modSet, seen map[*typ
 		case *ast.UnaryExpr:
 			if s.Op == token.AND {
 				ms.allocs = true
+				// a new object's fields are written: those field heaps change
+				if t := info.TypeOf(s.X); t != nil {
+					if st, ok := structOf(t); ok {
+						for i := 0; i < st.NumFields(); i++ {
+							ms.fields[st.Field(i)] = true
+						}
+					}
+				}
 			}
 			if s.Op == token.ARROW {
 				ms.ghosts["fetched"] = true
@@ -1301,6 +1312,13 @@ func (x *Exec) callMods(unit *FuncUnit, call *ast.CallExpr, ms *modSet, seen map
 	if tv, ok := info.Types[call.Fun]; ok && (tv.IsType() || tv.IsBuiltin()) {
 		if id, ok := call.Fun.(*ast.Ident); ok && id.Name == "new" {
 			ms.allocs = true
+			if t := info.TypeOf(call.Args[0]); t != nil {
+				if st, ok := structOf(t); ok {
+					for i := 0; i < st.NumFields(); i++ {
+						ms.fields[st.Field(i)] = true
+					}
+				}
+			}
 		}
 		return
 	}
@@ -1486,8 +1504,35 @@ func (x *Exec) contractMods(cu *FuncUnit, con *Contract, ms *modSet) {
 	for _, cl := range con.Clauses {
 		if cl.Kind == "allocates" {
 			ms.allocs = true
+			for _, tn := range splitList(cl.Text) {
+				if t := x.lookupTypeName(cu, tn); t != nil {
+					if st, ok := structOf(t); ok {
+						for i := 0; i < st.NumFields(); i++ {
+							ms.fields[st.Field(i)] = true
+						}
+					}
+				}
+			}
 		}
 	}
+}
+
+func (x *Exec) lookupTypeName(cu *FuncUnit, tn string) types.Type {
+	var o types.Object
+	if i := strings.Index(tn, "."); i > 0 {
+		ps := cu.Pkg.Types.Scope()
+		for c := 0; c < ps.NumChildren(); c++ {
+			if pn, ok := ps.Child(c).Lookup(tn[:i]).(*types.PkgName); ok {
+				o = pn.Imported().Scope().Lookup(tn[i+1:])
+			}
+		}
+	} else {
+		_, o = cu.Pkg.Types.Scope().LookupParent(tn, token.NoPos)
+	}
+	if tnm, ok := o.(*types.TypeName); ok {
+		return tnm.Type()
+	}
+	return nil
 }
 
 // fieldByName resolves the field object named by "<expr>.f" using the callee's parameter types
